@@ -214,12 +214,20 @@ async fn run_c15(sc: &Value) -> Value {
             Ok(mut t) => {
                 let hb = header_bytes(hdr, src, run.port);
                 if !hb.is_empty() {
-                    // every other connection with a header: the header and the client's first frames leave in ONE segment
-                    if conns.len() % 2 == 1 {
+                    // every third connection with a header: the header and the client's first frames leave in ONE segment
+                    if conns.len() % 3 == 1 {
                         t.cork();
                         rec["coalesced"] = json!(true);
                     }
-                    let _ = t.send_raw(&hb).await;
+                    if conns.len() % 3 == 2 && hb.len() >= 4 {
+                        // ... every third one: the header itself arrives in two segments
+                        rec["splitHeader"] = json!(true);
+                        let _ = t.send_raw(&hb[..hb.len() / 2]).await;
+                        tokio::time::sleep(Duration::from_millis(40)).await;
+                        let _ = t.send_raw(&hb[hb.len() / 2..]).await;
+                    } else {
+                        let _ = t.send_raw(&hb).await;
+                    }
                 }
                 if c["kind"] == "login" {
                     let o = login(&mut t, 2, "Player", 7, None, "success", Duration::from_millis(1500)).await;
